@@ -337,7 +337,7 @@ fn drop_heavy_job(ctx: &Ctx, job: usize, histories: u64) -> Stats {
             let mk_case = |log: &Vec<String>| json!({"kind": "drop-heavy", "seed": ctx.seed, "job": job, "history": h, "labels": labels_json(&labels), "log": log});
             util::budget(50_000_000, 10_000);
             let main = guarded(|| apply(&env, &op, &|i| Rc::clone(&live[i].0)));
-            let fresh_env: BDDEnv<usize> = BDDEnv::new();
+            let fresh_env: BDDEnv<usize> = BDDEnv::default();
             let fresh = guarded(|| apply(&fresh_env, &op, &|i| build_in_env(&fresh_env, &live[i].1, &vars)));
             match (main, fresh) {
                 (Ok((Some(r), _)), Ok((Some(fr), _))) => {
